@@ -81,7 +81,8 @@ def mk_nested_case(i, rng):
         cuts = sorted(rng.randrange(0, den + 1) for _ in range(k - 1))
         return [Fraction(b - a, den) for a, b in zip([0] + cuts, cuts + [den])]
     side = rng.choice(["src", "dst"])
-    n = rng.choice([rng.randrange(0, 200), 101, 100, 7, 2 ** 64 + rng.randrange(0, 50)])
+    n = rng.choice([rng.randrange(0, 200), 101, 100, 7, 2 ** 64 + rng.randrange(0, 50),
+                    rng.choice([2 ** 62, 2 ** 62 + 1, 3 * 2 ** 61 + 1, 4 * 10 ** 18, 10 ** 19 // 3, 2 ** 63 - 1, 2 ** 61 + 7])])
     counter = [0]
     need_cap = [False]
 
@@ -312,6 +313,8 @@ def run(chk):
     nrand = chk.size(3000, 40000)
     for _ in range(nrand):
         k = rng.randrange(1, 7)
+        if rng.random() < 0.12:
+            k = rng.choice([8, 9, 15, 16, 17, 18, 24, 31, 32, 33, 48, 64, 65, 100, 129, 257])       # many clauses
         den = rng.choice([3, 7, 9, 100, 1000, 10000, 64, 97])
         cuts = sorted(rng.randrange(0, den + 1) for _ in range(k - 1))
         nums = [b - a for a, b in zip([0] + cuts, cuts + [den])]
@@ -323,7 +326,8 @@ def run(chk):
                 qs[j] = -qs[j]
         if rng.random() < 0.4:
             qs[-1] = None
-        n = rng.choice([rng.randrange(0, 1000), 2 ** 64 + rng.randrange(0, 10 ** 6), 10 ** 30 + rng.randrange(0, 10 ** 9)])
+        n = rng.choice([rng.randrange(0, 1000), 2 ** 64 + rng.randrange(0, 10 ** 6), 10 ** 30 + rng.randrange(0, 10 ** 9),
+                        rng.choice([2 ** 62, 2 ** 62 + 1, 3 * 2 ** 61 + 1, 4 * 10 ** 18, 10 ** 19 // 3, 2 ** 63 - 1, 2 ** 61 + 7, 3 * 10 ** 16])])
         c, g = mk_case(len(cases), n, qs, qs[-1] is None, rng.choice(["dst", "src"]),
                        var_idx=rng.choice([None, 0, k - 1]), style=rng.randrange(3))
         cases.append(c)
